@@ -22,6 +22,8 @@ def _drift_lines(tlc_out):
 def runner(prop, fam, tier, seed, replay=None):
     """Generic table flow, then the refinement differences to RFC 1661 (DRIFT, information only)
     are copied from TLC's output of the table run into the evidence."""
+    if tier == "thorough":
+        fam = dict(fam, design=[("PppFsmDesign", "MC_design_any_thorough.cfg", 8), ("PppFsmDesign", "MC_design_rfc.cfg", 4)])
     rc = tablecheck.table_check(prop, fam, tier, seed, replay)
     if rc == 2:
         return rc
@@ -52,7 +54,7 @@ CHECKS = {
     "C11": dict(
         runner=runner,
         pkg="./pppfsm", test="TestExplore", spec_dir="PppFsm", impl_module="PppFsmImpl",
-        design=[("PppFsmDesign", "MC_design_any.cfg", 4), ("PppFsmDesign", "MC_design_rfc.cfg", 4)],
+        design=[("PppFsmDesign", "MC_design_any.cfg", 8), ("PppFsmDesign", "MC_design_rfc.cfg", 4)],
         watch=CLAUSES,
         assumptions=[
             "observation: the state an automaton reports is GetState()/IsOpened(); its outputs are the packets handed to the send callback, decoded by the harness to (code, identifier, options) - trusted decoding step",
